@@ -910,9 +910,9 @@ def r01_8(ck, rf):
             process = A.arg_of(c, 1, 'process')
             hit = False
             for cond, pol in cfg.guard_edges(node):
-                if pol is not True:
+                if pol not in (True, False):
                     continue
-                for a in A.cond_atoms(cond, True):
+                for a in A.cond_atoms(cond, pol):
                     if a[0] != 'truthy':
                         continue
                     try:
